@@ -41,6 +41,7 @@ type Subst struct {
 	File string // path relative to the repository root
 	Old  string
 	New  string
+	Re   bool // Old is a regular expression, New its replacement template; no match is not an error
 }
 
 // JobDef is one harness entry explored under given bounds.
@@ -285,6 +286,10 @@ func nativeRun(j JobDef, cases []replayCase) ([]replayResult, string, error) {
 		}
 		txt := string(src)
 		for _, s := range ss {
+			if s.Re {
+				txt = regexp.MustCompile(s.Old).ReplaceAllString(txt, s.New)
+				continue
+			}
 			if !strings.Contains(txt, s.Old) {
 				return nil, "", fmt.Errorf("replay substitution: %q not found in %s", s.Old, f)
 			}
